@@ -280,3 +280,61 @@ def ob_twin_templates(e1: int, e2: int, o1: int, o2: int, o3: int) -> bool:
 OBLIGATIONS.append(Ob('twin_templates', ob_twin_templates, ['0 <= e%d < %d' % (i, len(TWIN_ENC)) for i in (1, 2)] + ['0 <= o%d < 4' % i for i in (1, 2, 3)], timeout=tier(280, 900), path_timeout=60,
                       data='-', selectors='two HTML objects over one source text, encodings selected from %r, histories of 3 operations (render i / pickle round trip i) followed by rendering both' % TWIN_ENC,
                       stubs='runs untraced once the selectors are fixed on the path'))
+
+
+# ---------------------------------------------------------------- dtml-tree never modifies the caller's branch lists
+import TreeDisplay      # noqa: E402,F401
+
+
+class TNode:
+    def __init__(self, name, kids=()):
+        self.name, self._kids = name, list(kids)
+
+    def tpValues(self):
+        return self._kids
+
+    def tpId(self):
+        return self.name
+
+    def tpURL(self):
+        return self.name
+
+
+class TResp:
+    def setCookie(self, *a, **k):
+        pass
+
+
+TREE_SRCS = ['<dtml-tree root sort=name><dtml-var name></dtml-tree>', '<dtml-tree root sort=name reverse><dtml-var name></dtml-tree>', '<dtml-tree root reverse><dtml-var name></dtml-tree>',
+             '<dtml-tree root skip_unauthorized sort=name><dtml-var name></dtml-tree>', '<dtml-tree root><dtml-var name></dtml-tree>']
+
+
+def ob_tree_leaves_input_alone(o1: int, o2: int, o3: int, k: int, tup: bool) -> bool:
+    """rendering a tree (sort / reverse / skip_unauthorized, expand_all or not) leaves the lists returned by the nodes' branches method
+    exactly as they were - same objects in the same order - and renders the same rows every time"""
+    order = [[0, 1, 2], [0, 2, 1], [1, 0, 2], [1, 2, 0], [2, 0, 1], [2, 1, 0]][pick(o1, 6)]      # distinct names (tree sort compares nodes on ties)
+    ki = pick(k, len(TREE_SRCS))
+    tp = bool(tup)
+    with NoTracing():
+        names = ['c', 'a', 'b']
+        kids = [TNode(names[i], [TNode(names[i] + '2'), TNode(names[i] + '1')]) for i in order]
+        root = TNode('r', kids)
+        if tp:
+            root._kids = tuple(kids)
+        before = list(root._kids)
+        sub_before = [list(n._kids) for n in kids]
+        t = HTML(TREE_SRCS[ki])
+        outs = []
+        for rnd in range(2):
+            outs.append(t(root=root, URL='u', RESPONSE=TResp(), expand_all=1))
+            if len(root._kids) != 3 or any(a is not b for a, b in zip(root._kids, before)):
+                return False
+            for n, sb in zip(kids, sub_before):
+                if len(n._kids) != 2 or any(a is not b for a, b in zip(n._kids, sb)):
+                    return False
+        return outs[0] == outs[1]
+
+
+OBLIGATIONS.append(Ob('tree_leaves_input_alone', ob_tree_leaves_input_alone, ['0 <= o1 < 6', 'o2 == 0', 'o3 == 0', '0 <= k < %d' % len(TREE_SRCS)], timeout=tier(200, 600), path_timeout=60,
+                      data='-', selectors='dtml-tree templates %r over a root whose three children (each with two children) come in a selected order, list or tuple; rendered twice with expand_all' % TREE_SRCS,
+                      stubs='runs untraced once the selectors are fixed on the path'))
